@@ -152,7 +152,7 @@ def gen_design(rng, size=None, hier=False):
             rng.shuffle(pairs)
             inst = {'kind': 'gate' if rng.random() < 0.15 else 'subckt', 'ref': ref, 'pairs': pairs}
         elif r < 0.88:
-            k = rng.choice([0, 0, 1, 2, 2, 3, 4])
+            k = rng.choice([0, 0, 1, 2, 2, 3, 4, 11, 13])   # >= 11 inputs: in_10 sorts before in_2 as a string
             ins = [in_net() for _ in range(k)]
             o = out_net()
             driven.append(o)
